@@ -138,6 +138,8 @@ type FnV struct {
 	floatDivs []string
 	shl map[string]int
 	assertAt map[ast.Stmt][]*AssertClause
+	anchorCall *ast.CallExpr
+	callArgs map[*ast.CallExpr][]Val // argument values of the calls executed in the top frame (for call-anchored asserts)
 	i2fCache map[string]string
 	i2fList [][2]string
 	ncut int
@@ -429,7 +431,9 @@ func (fv *FnV) exec(st *State, s ast.Stmt) *State {
 		for _, ac := range acs {
 			var g string
 			if strings.HasPrefix(ac.Var, "call:") && pre != nil {
+				fv.anchorCall = callOfStmt(s)
 				g = fv.evalClauseAtPre(st, ac.Cl, s.End(), pre)
+				fv.anchorCall = nil
 			} else {
 				g = fv.evalClauseAt(st, ac.Cl, s.End())
 			}
